@@ -347,12 +347,13 @@ type Engine struct {
 	dtByType  map[string]*DTDecl
 	ifaces    map[int64]*IfaceV
 	chanInvs  map[int][]*ChanInvDecl // invariants of channels received from outside, by object id
+	owner     map[int]writeRec       // storage object id -> struct location last known to hold the reference
 	unmodelled map[string]int // names of havoc'd / unmodelled constructs → count
 	assumptionsUsed map[string]bool
 }
 
 func newEngine() *Engine {
-	return &Engine{chanInvs: map[int][]*ChanInvDecl{}, ifaces: map[int64]*IfaceV{}, objByName: map[string]*Object{}, dtByType: map[string]*DTDecl{}, unmodelled: map[string]int{}, assumptionsUsed: map[string]bool{}}
+	return &Engine{owner: map[int]writeRec{}, chanInvs: map[int][]*ChanInvDecl{}, ifaces: map[int64]*IfaceV{}, objByName: map[string]*Object{}, dtByType: map[string]*DTDecl{}, unmodelled: map[string]int{}, assumptionsUsed: map[string]bool{}}
 }
 
 func (e *Engine) note(what string) { e.unmodelled[what]++ }
@@ -723,7 +724,34 @@ func (e *Engine) objVal(s *State, o *Object) Val {
 		v = e.zeroStore(o)
 	}
 	s.heap[o.id] = v
+	e.noteOwners(o, nil, v, 0)
 	return v
+}
+
+// noteOwners records which struct location holds each map / channel / slice
+// reference, so that invariants of the owner can follow writes to the storage.
+func (e *Engine) noteOwners(o *Object, fpath []int, v Val, depth int) {
+	if depth > 4 {
+		return
+	}
+	switch t := v.(type) {
+	case *StructV:
+		for i, f := range t.F {
+			e.noteOwners(o, append(append([]int(nil), fpath...), i), f, depth+1)
+		}
+	case *MapV:
+		if t.Obj != nil && len(fpath) > 0 {
+			e.owner[t.Obj.id] = writeRec{obj: o, fpath: fpath[:len(fpath)-1]}
+		}
+	case *ChanV:
+		if t.Obj != nil && len(fpath) > 0 {
+			e.owner[t.Obj.id] = writeRec{obj: o, fpath: fpath[:len(fpath)-1]}
+		}
+	case *SliceV:
+		if t.Obj != nil && len(fpath) > 0 {
+			e.owner[t.Obj.id] = writeRec{obj: o, fpath: fpath[:len(fpath)-1]}
+		}
+	}
 }
 
 // ---- conversion between register values and elemSort terms ----
